@@ -178,7 +178,7 @@ func (e *Engine) resolveType(text string, pkg *types.Package) types.Type {
 		}
 		return nil
 	case strings.HasPrefix(text, "set["):
-		// spec-only set type set[T] (ghosts): an SMT array T -> Bool; builtins in(s, x), add(s, x)
+		// spec-only set type set[T] (ghosts): an SMT array T -> Bool; builtins setin(s, x), setadd(s, x)
 		if t := e.resolveType(strings.TrimSuffix(text[4:], "]"), pkg); t != nil {
 			return types.NewArray(t, -2)
 		}
